@@ -23,6 +23,8 @@ inductive Err where
   | ebadf           -- syscall.EBADF
   | closedFile      -- errors.New("read: use of closed file")
   | wrappedEOF      -- fmt.Errorf("read: %w", io.EOF)              (identity comparison fails)
+  | afPoll          -- gopacket/afpacket.ErrPoll ("packet poll failed": poll(2) reported POLLERR, e.g. the
+                    --   interface went down for a moment; the socket stays usable)
   | other           -- errors.New("boom")
   deriving Repr, DecidableEq, Inhabited
 
